@@ -42,6 +42,11 @@ def make_case(index, rng, tier):
     sub = rng.randrange(12) == 0          # bodyless-with-body sub-check
     reqs = [appgen.gen_request(rng) for _ in range(n)]
     progs = [appgen.gen_program(rng) for _ in range(n)]
+    for r, p in zip(reqs, progs):
+        if p["status"].startswith("101") and (r["version"] == [1, 0] or n > 1 or sub or r["method"] == "HEAD" or p["fail"]):
+            # a well-behaved application does not answer an HTTP/1.0 request with a 1xx status; and once the protocol is switched the
+            # connection is no longer HTTP: only judged for a single plain request
+            p["status"] = "204 No Content"
     if sub:
         for r, p in zip(reqs, progs):
             p["head_aware"] = False
@@ -162,6 +167,16 @@ def _run(case, choices, res, log):
 
     reqs = case["reqs"]
     resps, probs, rest = resp_ref.parse(wire, [{"method": r["method"], "version": r["version"]} for r in reqs] + [{"method": "GET"}])
+    if len(reqs) == 1 and case["progs"][0]["status"].startswith("101") and not netfault:
+        # a 1xx status from the application (protocol switch): its head, and not a byte of HTTP framing behind it
+        heads = [r for r in resps if r.get("code") == 101]
+        if not heads or any(r.get("code") != 100 for r in resps[:resps.index(heads[0])]):
+            res.violate(tag + ":1xx:no-head", "the application answered 101 but the wire does not start with that head; %s" % ctx())
+        elif wire[heads[0]["end"]:]:
+            res.violate(tag + ":1xx:bytes-after-head", "the application answered 101 Switching Protocols without a body; the server put %r "
+                        "behind the head (chunked framing of a response that has none): the peer reads it as the first bytes of the new "
+                        "protocol; %s" % (bytes(wire[heads[0]["end"]:][:40]), ctx()))
+        raise _Done()
     finals = [r for r in resps if not r.get("interim")]
     stop = False
     for i, r in enumerate(finals):
